@@ -431,6 +431,58 @@ def vc_merge(ctx):
     ctx.check(ok, 'merge', body, 'every dot of other reaches self.apply', 'a dot of other can be skipped by merge', line=block_line(it, sites[0]))
 
 
+def scan_kind(facts, t, analysed=None, bad=None):
+    """t is (the negation of) a pointwise dominance scan `for all (k, v) in X.dots: Y.get(k) >= v`
+    -> 'ge' when X = other (self dominates) / 'le' when X = self, possibly ('not', kind)."""
+    q = quant(facts, t)
+    if q is None:
+        return None
+    base = iter_source(q['src'])[0]
+    pb = param_path(base)
+    if not pb or set(iter_adaptors(q['src'])) & LOSSY_ADAPTORS:
+        return None
+    # the scan ranges over the (actor, counter) entries of X.dots, or over the dots X.iter() yields
+    if pb[1][-1:] == ('dots',):
+        kf, vf = '0', '1'
+    elif pb[1] == () and any(st[0] == 'call' and call_name(st) == 'iter' and 'VClock' in (cinfo(st[1])['self'] or cinfo(st[1])['def'] or '')
+                             for st in subterms(versionless(q['src']))):
+        kf, vf = 'actor', 'counter'
+    else:
+        return None
+    item = q['m'].get(('param', 2))
+    if item is None:
+        return None
+    got = []
+
+    def classify(a, b, tt):
+        for x, y, orient in ((a, b, 'fwd'), (b, a, 'rev')):
+            cg = clock_get_of(x)
+            if cg is not None:
+                k, v = versionless(cg[1]), versionless(y)
+                pc = param_path(cg[0])
+                if k == ('field', versionless(item), kf) and v == ('field', versionless(item), vf) and pc:
+                    got.append(pc[0])
+                    return ('p', orient)
+        return None
+    truth, hit = pred_truth(facts, q, classify, TOTAL, 'p')
+    if not got or got[0] == pb[0]:
+        return None
+    if analysed is not None:
+        analysed.add(q['cb'].key)
+    ge = {LT: False, EQ: True, GT: True}
+    lt = {LT: True, EQ: False, GT: False}
+    kind = 'ge' if pb[0] == 2 else 'le'
+    # value = neg XOR quantified(P):  forall ge -> scan ; exists lt -> not scan
+    if q['kind'] == 'forall' and truth == ge:
+        return ('not', kind) if q['neg'] else kind
+    if q['kind'] == 'exists' and truth == lt:
+        return kind if q['neg'] else ('not', kind)
+    if bad is not None:
+        bad.append((q['cb'], truth))
+    return None
+
+
+
 @rule('VC-PCMP', {
     'C10': 'partial_cmp must be exactly the pointwise order (Equal / Greater / Less / None)',
     'C06': 'MVReg dominance filters call it',
@@ -444,52 +496,11 @@ def vc_pcmp(ctx):
     scans = {}
 
     def scan_kind(t):
-        """t is (the negation of) a pointwise dominance scan `for all (k, v) in X.dots: Y.get(k) >= v`
-        -> 'ge' when X = other (self dominates) / 'le' when X = self, possibly ('not', kind)."""
-        q = quant(facts, t)
-        if q is None:
-            return None
-        base = iter_source(q['src'])[0]
-        pb = param_path(base)
-        if not pb or set(iter_adaptors(q['src'])) & LOSSY_ADAPTORS:
-            return None
-        # the scan ranges over the (actor, counter) entries of X.dots, or over the dots X.iter() yields
-        if pb[1][-1:] == ('dots',):
-            kf, vf = '0', '1'
-        elif pb[1] == () and any(st[0] == 'call' and call_name(st) == 'iter' and 'VClock' in (cinfo(st[1])['self'] or cinfo(st[1])['def'] or '')
-                                 for st in subterms(versionless(q['src']))):
-            kf, vf = 'actor', 'counter'
-        else:
-            return None
-        item = q['m'].get(('param', 2))
-        if item is None:
-            return None
-        got = []
-
-        def classify(a, b, tt):
-            for x, y, orient in ((a, b, 'fwd'), (b, a, 'rev')):
-                cg = clock_get_of(x)
-                if cg is not None:
-                    k, v = versionless(cg[1]), versionless(y)
-                    pc = param_path(cg[0])
-                    if k == ('field', versionless(item), kf) and v == ('field', versionless(item), vf) and pc:
-                        got.append(pc[0])
-                        return ('p', orient)
-            return None
-        truth, hit = pred_truth(facts, q, classify, TOTAL, 'p')
-        if not got or got[0] == pb[0]:
-            return None
-        ctx.analysed.add(q['cb'].key)
-        ge = {LT: False, EQ: True, GT: True}
-        lt = {LT: True, EQ: False, GT: False}
-        kind = 'ge' if pb[0] == 2 else 'le'
-        # value = neg XOR quantified(P):  forall ge -> scan ; exists lt -> not scan
-        if q['kind'] == 'forall' and truth == ge:
-            return ('not', kind) if q['neg'] else kind
-        if q['kind'] == 'exists' and truth == lt:
-            return kind if q['neg'] else ('not', kind)
-        scans.setdefault('bad', []).append((q['cb'], truth))
-        return None
+        bad_ = []
+        k_ = globals()['scan_kind'](facts, t, ctx.analysed, bad_)
+        if bad_:
+            scans.setdefault('bad', []).extend(bad_)
+        return k_
 
     def atom(t):
         if t[0] == 'call' and cinfo(t[1])['name'] == 'eq' and len(t[2]) == 2:
